@@ -566,12 +566,65 @@ def r6(R6, cfg, F):
         R6.missing(cfg, 'Borrow<dyn Key> for Dependency')
 
 
+def r7_loop_form(R7, cfg, F, he, th):
+    """the same obligations when the batch is not walked by Events::for_each(closure) but turned into a collection that
+    handle_events loops over (helpers written in place)"""
+    rc = [c for c in th.calls() if c.callee and re.search(r'Receiver::<T>::try_recv$', c.callee.best) and 'Events' in c.dest['ty']]
+    hc = [c for c in th.calls() if c.callee and c.callee.best == he.path]
+    ok = len(rc) == 1 and len(hc) == 1
+    if ok:
+        src = th.downcast_source(hc[0].args[1])
+        sw = th.primary_switch(rc[0].dest['l'])
+        okt = th.variant_edge(sw, 0) if sw is not None else None
+        ok = bool(src) and src[0] == rc[0].dest['l'] and src[1] == 'Ok' and okt is not None \
+            and not (th.reachable([okt], removed_blocks=[hc[0].bb]) & (set(th.return_blocks()) | {rc[0].bb}))
+    R7.check(ok, cfg, th.path, 'received-events-are-handled', 'every Events value received by the reloader must be passed to handle_events', hc[0].loc() if hc else th.loc())
+    ct = [c for c in he.calls() if c.callee and c.callee.best == 'hot_reloading::dependencies::DepsGraph::contains']
+    ins = [c for c in he.calls() if c.callee and c.callee.name == 'insert' and 'HashSet' in c.callee.best]
+    nx = [c for c in he.calls() if c.callee and c.callee.name == 'next' and c.callee.trait == 'std::iter::Iterator']
+    us = [c for c in he.calls() if c.callee and c.callee.name == 'update_if_static']
+    adapt = [c.callee.name for c in he.calls() if c.callee and c.callee.trait == 'std::iter::Iterator' and c.callee.name not in ('next', 'into_iter')]
+    ok = len(ct) == 1 and len(ins) == 1 and len(nx) == 1 and len(us) == 1 and not adapt
+    why = 'shape: one loop over the entries (no adaptor), one DepsGraph::contains, one insertion into the change set, one update_if_static'
+    if ok:
+        ent = ['call@bb%d' % nx[0].bb, 'as:Some', '0']
+        e1, e2 = common.strip_refs(common.deep_path(he, ct[0].args[1], at=ct[0].bb)), common.strip_refs(common.deep_path(he, ins[0].args[1], at=ins[0].bb))
+        pg = common.strip_refs(common.deep_path(he, ct[0].args[0], at=ct[0].bb))
+        r = he.call_roots(ins[0].args[0])
+        ps = common.strip_refs(common.deep_path(he, (r[0].args[0] if len(r) == 1 and r[0].args else ins[0].args[0])))
+        ok = e1 == ent and e2 == ent and pg[:1] == ['arg1'] and 'deps' in pg and ps[:1] == ['arg1'] and 'to_reload' in ps
+        why = 'the entry tested against the graph and queued must be the element the loop is at, the graph self.deps and the set self.to_reload'
+    if ok:
+        # what is iterated is made from the Events value, whole
+        it_src = he.origins(nx[0].args[0], passthrough=common.make_pt(r'IntoIterator.*::into_iter$', r'^std::iter::IntoIterator::into_iter$'))
+        ok = ('arg', 2) in it_src and not [x for x in it_src if x[0] == 'arg' and x[1] != 2]
+        why = 'the loop must walk the entries of the Events value it was given'
+    if ok:
+        sw = he.primary_switch(nx[0].dest['l'])
+        some = he.variant_edge(sw, 1) if sw is not None else None
+        none = he.variant_edge(sw, 0) if sw is not None else None
+        tg = [(x, t) for x, t in common.call_truth_guards(he, ins[0].bb) if x is ct[0]]
+        ok = some is not None and none is not None and tg == [(ct[0], True)]
+        if ok:
+            # a known entry is queued before the loop goes on; no element ends the walk; the update follows the walk
+            t_edge = [d for d, lab in he.edges([bb for bb, t in he.terms() if t['k'] == 'switch' and ins[0].bb in he.reachable([bb]) and any(x is ct[0] for x, _ in common.call_truth_guards(he, ins[0].bb))][0])] if False else None
+            after_true = he.reachable([some], removed_blocks=[ins[0].bb, nx[0].bb])
+            ok = not (he.reachable([some], removed_blocks=[nx[0].bb]) & set(he.return_blocks())) and us[0].bb in he.reachable([none]) and us[0].bb not in he.reachable([some], removed_blocks=[nx[0].bb]) \
+                and common.inevitable(he, [], us[0].bb)
+        why = 'every entry the graph knows must be queued, no entry may end the walk, and update_if_static must run once after it'
+    R7.check(ok, cfg, he.path, 'queue-all-then-update', 'handle_events: %s' % why, he.loc())
+    # (the walk over the whole batch is part of the obligation above in this form; recorded under the name it has in the other)
+    R7.check(ok, cfg, he.path, 'for_each-visits-every-event', 'handle_events must visit the single event and every event of a batch (no adaptor, no early exit): %s' % why, he.loc())
+
+
 def r7(R7, cfg, F):
     P = 'hot_reloading::paths::'
     he = F.body(P + 'HotReloadingData::handle_events')
     cl = F.body(P + 'HotReloadingData::handle_events::{closure#0}')
     fe = F.body('hot_reloading::Events::for_each')
     th = F.body('hot_reloading::hot_reloading_thread')
+    if he and th and (not cl or not fe):
+        return r7_loop_form(R7, cfg, F, he, th)
     if not he or not cl or not fe or not th:
         R7.missing(cfg, 'handle_events / its closure / Events::for_each / hot_reloading_thread')
         return
